@@ -71,6 +71,40 @@ func (p *Program) verifyFunc(fc *FuncContract) (u *Unit) {
 	}
 	x := p.newExec(fc.Key)
 	u.VC = x.vc
+	// mechanical (non-SMT) frame checks over the static call tree
+	if len(fc.ReadsOnly) > 0 || fc.NoWrites {
+		var errs []string
+		for prm, allowed := range fc.ReadsOnly {
+			got, problem := p.readFields(fn, prm)
+			if problem != "" {
+				errs = append(errs, "reads-only "+prm+": "+problem)
+			}
+			ok := map[string]bool{}
+			for _, a := range allowed {
+				ok[a] = true
+			}
+			for f := range got {
+				if !ok[f] {
+					errs = append(errs, "reads-only "+prm+": field "+f+" is accessed")
+				}
+			}
+		}
+		if fc.NoWrites {
+			if prob := p.writesOnlyLocals(fn); prob != "" {
+				errs = append(errs, "no-writes: "+prob)
+			}
+		}
+		name := fc.Key + "#frame.scan"
+		goal := tTrue
+		if len(errs) > 0 {
+			goal = tFalse
+		}
+		x.vc.oblige(&Obligation{Name: name, Kind: "frame", Func: fc.Key, Guard: tTrue, Goal: goal,
+			Src: "static read/write set of the call tree (SSA scan): " + strings.Join(errs, "; ")})
+		if !fc.HasSpec() && len(fc.Loops) == 0 {
+			return u
+		}
+	}
 	defer func() {
 		if r := recover(); r != nil {
 			if se, ok := r.(structureError); ok {
